@@ -17,6 +17,10 @@ For the small decorators the wrapper BODY is translated statement by statement:
     return <local|factory parameter|None|call>      -> .ret …
     raise X(<pure>)                                 -> .raise "X"
     if <cond>: … else: …                            -> .ite cond […] […]
+        (tests on the class argument of `overrides`, about the decorated function's name:  name [not] in dir(base) -> .baseHasName,
+         hasattr(base, name) -> .baseHasAttr,  name in base.__dict__ | vars(base) -> .baseOwnsName,
+         getattr(base, name, None) is [not] None -> .baseAttrIsNone,  getattr(base, name, None) as a truth value -> .baseAttrTruthy,
+         callable(getattr(base, name, None)) -> .baseAttrCallable;  not / and / or of tests)
     try: … except [Exception|BaseException]: …      -> .tryCatch […] kind […]
 
 Anything else in a decorator of the REQUIRED list raises `Skip` (the committed snapshot is used and the property rests on the
@@ -270,20 +274,57 @@ class WrapperTranslator:
     def cond(self, e):
         if isinstance(e, ast.UnaryOp) and isinstance(e.op, ast.Not):
             return f'(.not {self.cond(e.operand)})'
+        if isinstance(e, ast.BoolOp) and len(e.values) >= 2:
+            c = self.cond(e.values[-1])
+            for v in reversed(e.values[:-1]):       # `a and b and c` = `a and (b and c)`
+                c = f"({'.and_' if isinstance(e.op, ast.And) else '.or_'} {self.cond(v)} {c})"
+            return c
         ct = self.lv.coro_test(e)
         if ct:
             return ct
         if isinstance(e, ast.Compare) and len(e.ops) == 1:
+            # getattr(base, name, None) is [not] None   (either operand order)
+            if type(e.ops[0]) in (ast.Is, ast.IsNot):
+                l, r = e.left, e.comparators[0]
+                if (self._is_base_attr(l) and self._is_none(r)) or (self._is_none(l) and self._is_base_attr(r)):
+                    return '.baseAttrIsNone' if isinstance(e.ops[0], ast.Is) else '(.not .baseAttrIsNone)'
             op = {ast.Eq: '.eq', ast.NotEq: '.ne', ast.Is: '.is_', ast.IsNot: '.isNot'}.get(type(e.ops[0]))
             if op:
                 return f'({op} {self.atom(e.left)} {self.atom(e.comparators[0])})'
-            # name [not] in dir(base)
-            if type(e.ops[0]) in (ast.In, ast.NotIn) and self._is_func_name(e.left) and self._is_dir_of_factory_param(e.comparators[0]):
-                return '.baseHasName' if isinstance(e.ops[0], ast.In) else '(.not .baseHasName)'
-        if isinstance(e, ast.Call) and getattr(e.func, 'id', None) == 'hasattr' and len(e.args) == 2 \
+            # name [not] in dir(base)  /  name [not] in base.__dict__  /  name [not] in vars(base)
+            if type(e.ops[0]) in (ast.In, ast.NotIn) and self._is_func_name(e.left):
+                atom = None
+                if self._is_dir_of_factory_param(e.comparators[0]):
+                    atom = '.baseHasName'
+                elif self._is_own_dict_of_factory_param(e.comparators[0]):
+                    atom = '.baseOwnsName'
+                if atom:
+                    return atom if isinstance(e.ops[0], ast.In) else f'(.not {atom})'
+        if isinstance(e, ast.Call) and getattr(e.func, 'id', None) == 'hasattr' and len(e.args) == 2 and not e.keywords \
                 and isinstance(e.args[0], ast.Name) and e.args[0].id in self.lv.factory_params and self._is_func_name(e.args[1]):
-            return '.baseHasName'
+            return '.baseHasAttr'
+        if self._is_base_attr(e):
+            return '.baseAttrTruthy'
+        if isinstance(e, ast.Call) and getattr(e.func, 'id', None) in ('callable', 'bool') and len(e.args) == 1 and not e.keywords \
+                and self._is_base_attr(e.args[0]):
+            return '.baseAttrCallable' if e.func.id == 'callable' else '.baseAttrTruthy'
         raise NotInSubset(f'condition {ast.unparse(e)}')
+
+    @staticmethod
+    def _is_none(e):
+        return isinstance(e, ast.Constant) and e.value is None
+
+    def _is_base_attr(self, e):
+        """getattr(<factory's class argument>, <the decorated function's name>, None)"""
+        return isinstance(e, ast.Call) and getattr(e.func, 'id', None) == 'getattr' and len(e.args) == 3 and not e.keywords \
+            and isinstance(e.args[0], ast.Name) and e.args[0].id in self.lv.factory_params and self._is_func_name(e.args[1]) \
+            and self._is_none(e.args[2])
+
+    def _is_own_dict_of_factory_param(self, e):
+        if isinstance(e, ast.Attribute) and e.attr == '__dict__' and isinstance(e.value, ast.Name) and e.value.id in self.lv.factory_params:
+            return True
+        return isinstance(e, ast.Call) and getattr(e.func, 'id', None) == 'vars' and len(e.args) == 1 and not e.keywords \
+            and isinstance(e.args[0], ast.Name) and e.args[0].id in self.lv.factory_params
 
     def _is_func_name(self, e):
         if isinstance(e, ast.Name) and e.id in self.lv.name_aliases:
@@ -790,8 +831,15 @@ deriving DecidableEq, Repr
 inductive Cond where
   | eq (a b : Expr) | ne (a b : Expr) | is_ (a b : Expr) | isNot (a b : Expr)
   | wrappedIsCoroutine | otherIsCoroutine    -- `inspect.iscoroutinefunction(func | other_func)`
+  -- the tests a decorator can make on its class argument `base_class` about the decorated function's name:
   | baseHasName                              -- `func.__name__ in dir(base_class)`
+  | baseHasAttr                              -- `hasattr(base_class, func.__name__)`
+  | baseOwnsName                             -- `func.__name__ in base_class.__dict__` / `in vars(base_class)`
+  | baseAttrIsNone                           -- `getattr(base_class, func.__name__, None) is None`
+  | baseAttrTruthy                           -- `getattr(base_class, func.__name__, None)` as a truth value
+  | baseAttrCallable                         -- `callable(getattr(base_class, func.__name__, None))`
   | not (c : Cond)
+  | and_ (a b : Cond) | or_ (a b : Cond)     -- Python's short-circuit `and` / `or` of two tests
 deriving DecidableEq, Repr
 
 /-- `except Exception` | bare `except` / `except BaseException` -/
